@@ -126,6 +126,22 @@ def rule_do_group(chk, tpl):
     for k in ('reduce', 'py_initialize', 'dest_setup', 'src_setup', 'pre', 'post', 'nnps.update', 'nnps.update_domain', 'nnps.set_context'):
         chk.decide(not enclosing_for(ev[k][0][0].ast), 'phase-nesting', k, node=ev[k][0][0].ast, file=TPL, func='do_group',
                    detail_bad='%s is emitted inside a particle loop' % k, detail_ok='outside all particle loops')
+    # no phase is skipped at run time: the emitted code puts no `if` of its own around a phase (whether a group / an equation takes part is decided when the code is
+    # generated; a test on run-time quantities - the source is empty, the domain is not periodic - silently drops calls the documented order promises, e.g. loop_all for
+    # destinations without neighbours, or the cell-size refresh that update_domain() performs for every kind of domain)
+    def enclosing_if(node):
+        out = []
+        p = getattr(node, 'parent', None)
+        while p is not None:
+            if isinstance(p, (ast.If, ast.While)):
+                out.append(p)
+            p = getattr(p, 'parent', None)
+        return out
+    for k in need:
+        ifs = enclosing_if(ev[k][0][0].ast)
+        chk.decide(not ifs, 'phase-guards', 'no-run-time-test-around:' + k, node=ev[k][0][0].ast, file=TPL, func='do_group',
+                   detail_bad='%s is emitted under the run-time test `%s`: when it is false the phase is silently skipped' % (k, U(ifs[0].test)[:80] if ifs else ''),
+                   detail_ok='unconditional in the emitted code')
     # neighbour loop visits every neighbour returned for d_idx
     dl = enclosing_for(ev['loop'][0][0].ast)[1] if len(enclosing_for(ev['loop'][0][0].ast)) == 2 else None
     if dl is not None:
@@ -501,6 +517,36 @@ def rule_iteration(chk):
         chk.undecided('iteration', 'emitted', node=ic, file=AH, func='get_iteration_check', detail='generator not interpretable: %s' % e)
 
 
+def rule_dispatch(chk):
+    """the code emitted for a group's condition / pre / post callbacks addresses that very group (shared with C02: the emitted calls must run the user's callables of the
+    group they were given for)"""
+    ah = M.py(AH)
+    cls = M.find_class(ah, 'AccelerationEvalCythonHelper')
+    it = EM.interpreter()
+    # dispatch map
+    gm = M.find_func(cls, '_compute_group_map')
+    try:
+        # four model groups; the user-given names are labels for the profiler, not identities: two pairs of groups share a name
+        sg0, sg1 = EM.mock(has_subgroups=False, name='stage'), EM.mock(has_subgroups=False, name='relax')
+        g0, g1 = EM.mock(has_subgroups=False, data={}, name='relax'), EM.mock(has_subgroups=True, data=[sg0, sg1], name='stage')
+        helper2 = EM.instance(it, AH, 'AccelerationEvalCythonHelper', object=EM.mock(mega_groups=[g0, g1]))
+        EM.call(it, helper2, '_compute_group_map')
+        wantg = [(g0, 'self.groups[0]'), (g1, 'self.groups[1]'), (sg0, 'self.groups[1].data[0]'), (sg1, 'self.groups[1].data[1]')]
+        first_bad = None
+        for nm, suffix in (('get_condition_call', '.condition(t, dt)'), ('get_pre_call', '.pre()'), ('get_post_call', '.post()')):
+            f = M.find_func(cls, nm)
+            got = [EM.call(it, helper2, nm, g) for g, w_ in wantg]
+            okc = got == [w_ + suffix for g, w_ in wantg]
+            first_bad = first_bad or (None if okc else (nm, got))
+            chk.decide(okc, 'dispatch', nm, node=f, file=AH, func=nm,
+                       detail_bad='for groups [g0 "relax", g1 "stage" with sub-groups sg0 "stage", sg1 "relax"] %s emits %s: group i must be addressed as self.groups[i] and its j-th sub-group as '
+                                  'self.groups[i].data[j] (a group addressed through another group runs under that group\'s condition / pre / post)' % (nm, got), detail_ok='self.groups[i] / self.groups[i].data[j] + ' + suffix)
+        chk.decide(first_bad is None, 'dispatch', 'group-map', node=gm, file=AH, func='_compute_group_map',
+                   detail_bad='%s emits %s' % (first_bad or ('', '')), detail_ok='every group and sub-group addressed by its own position')
+    except (AI.Unsupported, AI.Raised) as e:
+        chk.undecided('dispatch', 'group-map', node=gm, file=AH, func='_compute_group_map', detail='generator not interpretable: %s' % e)
+
+
 def rule_helpers(chk):
     ah = M.py(AH)
     cls = M.find_class(ah, 'AccelerationEvalCythonHelper')
@@ -548,26 +594,7 @@ def rule_helpers(chk):
     chk.decide(ok, 'destination-range', 'range-uses-bounds', node=pr, file=AH, func='get_parallel_range',
                detail_bad='range is not built from D_START_IDX..NP_DEST', detail_ok='get_parallel_range("D_START_IDX", "NP_DEST")')
     rule_iteration(chk)
-    # dispatch map
-    gm = M.find_func(cls, '_compute_group_map')
-    try:
-        sg0, sg1 = EM.mock(has_subgroups=False), EM.mock(has_subgroups=False)
-        g0, g1 = EM.mock(has_subgroups=False, data={}), EM.mock(has_subgroups=True, data=[sg0, sg1])
-        helper2 = EM.instance(it, AH, 'AccelerationEvalCythonHelper', object=EM.mock(mega_groups=[g0, g1]))
-        EM.call(it, helper2, '_compute_group_map')
-        mp = helper2.attrs.get('_group_map')
-        ok = isinstance(mp, dict) and mp.get(g0) == 'self.groups[0]' and mp.get(g1) == 'self.groups[1]' and mp.get(sg0) == 'self.groups[1].data[0]' and \
-            mp.get(sg1) == 'self.groups[1].data[1]' and len(mp) == 4
-        chk.decide(ok, 'dispatch', 'group-map', node=gm, file=AH, func='_compute_group_map',
-                   detail_bad='for groups [g0, g1 with sub-groups sg0, sg1] the map is %s: group i must be self.groups[i] and its j-th sub-group self.groups[i].data[j]'
-                              % (sorted(mp.values()) if isinstance(mp, dict) else mp), detail_ok='self.groups[i] / self.groups[i].data[j]')
-        for nm, suffix in (('get_condition_call', '.condition(t, dt)'), ('get_pre_call', '.pre()'), ('get_post_call', '.post()')):
-            f = M.find_func(cls, nm)
-            got = [EM.call(it, helper2, nm, g) for g in (g0, sg1)]
-            chk.decide(got == ['self.groups[0]' + suffix, 'self.groups[1].data[1]' + suffix], 'dispatch', nm, node=f, file=AH, func=nm,
-                       detail_bad='%s emits %s' % (nm, got), detail_ok='map[group] + ' + suffix)
-    except (AI.Unsupported, AI.Raised) as e:
-        chk.undecided('dispatch', 'group-map', node=gm, file=AH, func='_compute_group_map', detail='generator not interpretable: %s' % e)
+    rule_dispatch(chk)
     scm = M.find_func(cls, 'setup_compiled_module')
     c = [x for x in M.calls(scm) if M.call_name(x) == 'module.AccelerationEval']
     from verif_static import norm as N_
